@@ -620,8 +620,8 @@ example : ScalingOK pwLog (3 / 5) (8 / 5) := by
 /-- `qrandint(4, 16, 4)` meets the hypotheses of `sample_member_partial` -/
 example : DrawOK (.int ⟨4, 16, .lin, some 4⟩) (.idx 9) ∧ SampleHyp exEnv (.int ⟨4, 16, .lin, some 4⟩) := by
   refine ⟨by simp [DrawOK], ?_⟩
-  simp only [SampleHyp]
-  refine ⟨by intro h; cases h, ?_⟩
+  show (ScaleKind.lin = ScaleKind.log → _) ∧ ∀ q : ℤ, some (4 : ℤ) = some q → _
+  refine ⟨fun h => (by cases h), ?_⟩
   intro q hq
   injection hq with hq
   subst hq
